@@ -244,11 +244,14 @@ func ctlRaces(c *ctx, file func() string) error {
 		if err != nil {
 			return err
 		}
-		d := h.abpDevice(false)
+		kind := []string{"two-copies", "three-copies", "uplink-vs-encoder", "old-counter-vs-encoder"}[s%4]
+		// the last kind: a relaxed device whose key warning is already stored sends an old counter
+		// while the downlink for its previous uplink is being encoded
+		d := h.abpDevice(kind == "old-counter-vs-encoder")
+		d.warn = kind == "old-counter-vs-encoder"
 		if err := h.addDevice(d, 5, 0); err != nil {
 			return err
 		}
-		kind := []string{"two-copies", "three-copies", "uplink-vs-encoder"}[s%3]
 		confirmed := s%2 == 0
 		f5, err := h.uplinkFrame(d, 5, confirmed, false, []byte{0x55, byte(s), 1})
 		if err != nil {
@@ -257,6 +260,13 @@ func ctlRaces(c *ctx, file func() string) error {
 		f6, err := h.uplinkFrame(d, 6, true, false, []byte{0x66, byte(s), 2})
 		if err != nil {
 			return err
+		}
+		if kind == "old-counter-vs-encoder" {
+			// the second frame carries a counter below the stored one (accepted: relaxed device)
+			f6, err = h.uplinkFrame(d, 3, true, false, []byte{0x33, byte(s), 2})
+			if err != nil {
+				return err
+			}
 		}
 		h.g.mu.Lock()
 		h.g.enabled = true
@@ -279,7 +289,7 @@ func ctlRaces(c *ctx, file func() string) error {
 					return err
 				}
 			}
-		default:
+		default: // "uplink-vs-encoder", "old-counter-vs-encoder"
 			// confirmed uplink 5 runs until its encoder stands before the counter operation
 			f5c, err := h.uplinkFrame(d, 5, true, false, []byte{0x55, byte(s), 1})
 			if err != nil {
@@ -321,7 +331,33 @@ func ctlRaces(c *ctx, file func() string) error {
 			if err := h.inject("uplink 6", f6, nil, 0); err != nil {
 				return err
 			}
-			if s%2 == 0 && held != nil {
+			if kind == "old-counter-vs-encoder" && held != nil && s%8 < 4 {
+				// the second handler reads the device, then the first encoder fetches its counter
+				for _, a := range h.g.parked() {
+					if a != held {
+						sched = append(sched, a.op)
+						if err := h.stepArrival(a, false); err != nil {
+							return err
+						}
+						break
+					}
+				}
+				for i := 0; i < 3 && !h.failed; i++ {
+					var enc *arrival
+					for _, a := range h.g.parked() {
+						if a.gid == held.gid {
+							enc = a
+						}
+					}
+					if enc == nil {
+						break
+					}
+					sched = append(sched, enc.op)
+					if err := h.stepArrival(enc, false); err != nil {
+						return err
+					}
+				}
+			} else if s%2 == 0 && held != nil {
 				// the targeted schedule: uplink 6 runs to completion while the encoder of uplink 5 waits
 				for i := 0; i < 100 && !h.failed; i++ {
 					var next *arrival
@@ -368,7 +404,7 @@ func ctlRaces(c *ctx, file func() string) error {
 		// ---- oracles (the races these schedules used to expose are fixed: see known_findings.json)
 		if !h.failed {
 			full, _ := h.rig.stateText(h.euis)
-			if dups := inboxDuplicates(full, d.eui); len(dups) > 0 && c.prop == "C03" {
+			if dups := inboxDuplicates(full, d.eui); len(dups) > 0 && c.prop == "C03" && !d.relaxed {
 				sig := "concurrent-copies-recorded-twice"
 				if kind == "uplink-vs-encoder" {
 					sig = "encoder-rewinds-uplink-counter"
@@ -394,11 +430,11 @@ func ctlRaces(c *ctx, file func() string) error {
 					seen[x.fcnt] = x.raw
 				}
 			}
-			if kind != "uplink-vs-encoder" && confirmed && acks > 1 && c.prop == "C09" {
+			if (kind == "two-copies" || kind == "three-copies") && confirmed && acks > 1 && c.prop == "C09" {
 				h.c.res.Add(hx.Finding{Kind: "propfail", Engine: "pipectl", Signature: "concurrent-copies-two-answers", Case: append([]pipeEvent{}, h.trace...), Impl: fmt.Sprintf("%d ACK downlinks", acks),
 					Note: "C09: copies of one confirmed uplink of a strict device are answered more than once under schedule " + strings.Join(sched, ",")})
 			}
-			if kind != "uplink-vs-encoder" && confirmed && acks == 0 && c.prop == "C09" {
+			if (kind == "two-copies" || kind == "three-copies") && confirmed && acks == 0 && c.prop == "C09" {
 				h.fail("propfail", "confirmed-uplink-unanswered", "C09: a confirmed uplink (copies delivered concurrently) got no ACK downlink under schedule "+strings.Join(sched, ","), "0 ACK downlinks", "1")
 			}
 		}
